@@ -317,6 +317,12 @@ fn pool(args: &[&str]) -> String {
                     settle().await;
                     "-".to_string()
                 }
+                'D' => {
+                    // the application finishes every stream it has open, whichever session carries it
+                    run.streams.clear();
+                    settle().await;
+                    "-".to_string()
+                }
                 'x' => {
                     let s = match run.srv_of.get(n as usize) {
                         Some(k) => shared.lock().unwrap().servers.get(*k).cloned().flatten(),
@@ -840,6 +846,10 @@ fn poolreal(args: &[&str]) -> String {
                     if let Some(p) = run.streams.iter().position(|(k, _)| *k == n as usize) {
                         run.streams.remove(p);
                     }
+                    "-".to_string()
+                }
+                'D' => {
+                    run.streams.clear();
                     "-".to_string()
                 }
                 _ => "-".to_string(),
